@@ -41,18 +41,31 @@ def pre_demerits(a):
 
 KP = ["boxworks-knuthplass", "common", "boxworks"]
 
+from props import c04_pass  # noqa: E402  (pass-level obligations: break_line_single_attempt on lists of a fixed shape)
+
 PROP = {
-    "level_text": "Only the arithmetic kernels are decided: badness (TeX.2021.108) and demerits (TeX.2021.859) equal TeX's for every operand in the stated ranges, from MIR by z3+cvc5. 'A pass finds a solution iff one exists and it is demerit-optimal' is NOT decided: a regression in the active-list search passes this check.",
-    "title": "Line breaking: badness and demerits are TeX's for every operand",
+    "level_text": ("Two layers, both from MIR by z3+cvc5. (1) The arithmetic kernels: badness (TeX.2021.108) and demerits (TeX.2021.859) equal TeX's for every operand in the stated ranges. "
+                   "(2) The pass itself: break_line_single_attempt is executed symbolically on horizontal lists of a fixed shape (item kinds concrete, every width/stretch/shrink/penalty, the line width, "
+                   "the tolerance, line_penalty, adj_demerits and right_skip symbolic) and its result is compared with the definition: breakpoints are returned iff some sequence of legal breakpoints is feasible, "
+                   "and no feasible sequence has smaller total demerits. Bound: lists of <= 4 items with <= 1 interior legal breakpoint (2 candidate sequences), one line width, looseness 0, no discretionaries. "
+                   "Longer lists, looseness, hyphenation demerits, the three-pass driver are NOT decided."),
+    "title": "Line breaking: a pass finds a solution iff one exists and it is demerit-optimal (bounded lists); badness and demerits are TeX's for every operand",
     "explanation": (
-        "Only the arithmetic kernels of the breaker are decided: badness (TeX.2021.108) and demerits (TeX.2021.859), private, "
-        "loop-free, taken from MIR. Optimality of a whole breaking pass is NOT decided by this check (see outside)."),
+        "The kernels badness (TeX.2021.108) and demerits (TeX.2021.859) are decided for every operand. The pass break_line_single_attempt is executed from its generic MIR "
+        "(Vec/VecDeque/iterators modelled, solver-backed pruning of infeasible branches) on lists of a fixed shape with every amount symbolic; inside the pass, `badness` and symbolic x symbolic "
+        "products are replaced by uninterpreted summaries constrained by true lemmas (so the verdict holds for the real functions), and a counterexample is only reported after it has been "
+        "realised with the real functions and replayed against the natively compiled break_line_single_attempt."),
     "outside": [
-        "break_line_single_attempt / break_line_all_attempts as a whole: feasibility iff, demerit optimality, looseness - the active-list search over a horizontal list is beyond the SAT bound that finished in this sandbox; a regression there is not detected here",
-        "fitness classification thresholds inside break_line_single_attempt (not a separable function)",
+        "lists with two or more interior legal breakpoints (the symbolic path count grows past the budget: measured, DESIGN.md 2.4), lists longer than 4 items, characters/ligatures/discretionaries/math (need a font repository or hyphenation state)",
+        "non-zero looseness (TeX.2021.875), several line widths (\\parshape/\\hangindent classes), force_solution = true (final pass), emergency_stretch > 0, double/final hyphen demerits",
+        "break_line_all_attempts (pretolerance / tolerance / emergency passes) and post_line_break",
+        "line formation is taken as this implementation builds lines (post_line_break: only the break item itself is dropped). TeX additionally discards the glue/kern/penalty items that *follow* a break (TeX.2021.837/879); "
+        "this tree does not implement that in either place, consistently - recorded in DESIGN.md as an observed deviation from TeX, not as a violation of C04",
         "badness for negative shortfall (TeX.2021.108 requires t >= 0; callers pass |shortfall|)",
     ],
-    "assumptions": ["private functions: the translator is not cross-checked natively for these two obligations (it is for every public kernel of C06/C17 in the same run of the same engine)"],
+    "assumptions": ["badness/demerits are private: the translator is not cross-checked natively for those two obligations; the pass obligations are (32 vectors per shape against the native build, every run)",
+                    "inside the pass, badness(t, s) is an uninterpreted function with the lemmas 0 <= b <= 10000 for t >= 0 and b = 0 for t = 0 (true of TeX.2021.108, which c04_badness proves the code equals); x*y with both operands symbolic is an uninterpreted function with |xy| <= 10^8 for |x|,|y| <= 10^4 and x*x >= 0",
+                    "the restriction stated in the property (overfull is upward closed in the line end) is assumed per instance as a precondition"],
     "obligations": [
         dict(engine="B", name="c04_badness", crates=KP, fn=("boxworks-knuthplass", "badness", None, None),
              args=[("t", "Scaled64"), ("s", "Scaled64")],
@@ -70,5 +83,11 @@ PROP = {
                         ("incompatible classes", lambda a: tm.and_(tm.eq(a["prev"].tag, I(0)), tm.eq(a["this"].tag, I(3))))],
              smt_timeout=300, funcs=["boxworks_knuthplass::LineBreaker::demerits (private; MIR)"],
              bound="badness in [0, 10000], penalty < 10000 (a feasible breakpoint), |line_penalty| <= 2^20, demerit parameters |x| <= 2^28: TeX.2021.859"),
+        c04_pass.obligation("R"),
+        c04_pass.obligation("RGR"),
+        dict(c04_pass.obligation("RPR"), tier="thorough"),
+        dict(c04_pass.obligation("RKGR"), tier="thorough"),
+        dict(c04_pass.obligation("RGGR"), tier="thorough"),
+        dict(c04_pass.obligation("RPGR"), tier="thorough"),
     ],
 }
